@@ -150,7 +150,11 @@ fn solver_level<F: Fam>(spec: &CaseSpec) {
     let mut cfg = spec.cfg.clone();
     cfg.monitors = 0;
     let o1 = run_solver(&with, &cfg);
-    let o0 = run_solver(&without, &cfg);
+    // large instances: the run without checker is not needed (the oracle gives the optimum) and may be very long: it is stopped
+    // at its first cutoff poll, which the verdict below treats like a run that exhausted the step budget
+    let mut cfg0 = cfg.clone();
+    if with.nvars() >= 20 { cfg0.cutoff_k = 1; }
+    let o0 = run_solver(&without, &cfg0);
     let spec = &super::solverprops::with_grants(&CaseSpec { cfg: cfg.clone(), ..spec.clone() }, &o1);
     with_acc(|a| {
         super::par::note_schedule(a, &o1);
@@ -164,9 +168,13 @@ fn solver_level<F: Fam>(spec: &CaseSpec) {
         }
         if let (Some((e1, v1)), Some((_e0, v0))) = (o1.completion, o0.completion) {
             let opt = with.optimum();
+            // long searches: a run that exhausts the logical step budget says nothing (with the checker: no verdict; without
+            // it: the run with the checker is judged against the oracle alone)
+            if o1.cutoff_fired { a.inconclusive("step budget exhausted by the run with the dominance checker", light_case(spec, with.as_ref())); return; }
             if v1 != opt || !e1 {
-                if v0 == opt {
-                    a.violation(PROP, "solver_value_changed_by_dominance", format!("with the dominance checker the solver reports {v1:?} (exact={e1}); without it {v0:?}; optimum {opt:?}"), J::obj().set("par", J::Bool(cfg.par.is_some())), case());
+                if v0 == opt || o0.cutoff_fired {
+                    let class = if with.nvars() >= 20 { "large" } else if with.nvars() >= 12 { "medium" } else { "small" };
+                    a.violation(PROP, "solver_value_changed_by_dominance", format!("with the dominance checker the solver reports {v1:?} (exact={e1}); without it {v0:?}; optimum {opt:?}"), J::obj().set("par", J::Bool(cfg.par.is_some())).set("instance_class", J::s(class)), case());
                 } else { a.bump("both_wrong_not_this_property", 1); }
             }
             // non trivial: at least one node was discarded by dominance
@@ -219,7 +227,8 @@ pub fn run(shard: &Shard) -> i32 {
             let uv = rng.chance(1, 2);
             with_acc(|a| { judge(&seq, uv, a, false); a.bump("random_sequences", 1); if large_universe(&seq) { a.bump("random_sequences_over_large_coordinates", 1); } });
         } else {
-            let p = Profile { only_all_impacted: true, with_dominance: true, small: rng.chance(1, 2), weak_t_dominance: true, medium_share: 1, ..Default::default() };
+            // (large deceptive instances: the only place where finding H13 has been seen)
+            let p = Profile { only_all_impacted: true, with_dominance: true, small: rng.chance(1, 2), weak_t_dominance: true, medium_share: 1, large_share: 1, deceptive_share: if shard.idx % 4 == 3 { 6 } else { 1 }, ..Default::default() };
             let mut spec = random_spec(rng, &p);
             if spec.variant.dom == DomKind::None { spec.variant.dom = if rng.chance(2, 3) { DomKind::Exact } else { DomKind::Weak }; }
             // a third of the cases on the corner that exposed H7: re-convergent table instances (many equally good states),
